@@ -155,7 +155,9 @@ fn ref_window_stat(kind: &str, h: &[f64], n: usize) -> Option<Option<f64>> {
         "vst" | "vsct" => if t + 1 < n { None } else {
             let m = mean(w); let sd = if w.len() < 2 || flat(w) { 0.0 } else { (w.iter().map(|x| (x - m) * (x - m)).sum::<f64>() / (w.len() as f64 - 1.0)).max(0.0).sqrt() };
             if kind == "vst" { if sd == 0.0 { Some(h[t - 1]) } else { Some(h[t - 1] / sd) } } else if sd == 0.0 { Some(0.0) } else { Some((h[t - 1] - m) / sd) } },
-        "center_of_gravity" => { let nn = w.len(); let den: f64 = w.iter().sum(); if den == 0.0 { Some(0.0) } else {
+        "center_of_gravity" => { let nn = w.len(); let den: f64 = w.iter().sum(); let sa: f64 = w.iter().map(|x| x.abs()).sum();
+            if den != 0.0 && den.abs() < 1e-9 * sa { return Some(Some(f64::NAN)); }        // ill-conditioned (the exact sum may be 0): step skipped (NaN marks "no reference")
+            if den == 0.0 { Some(0.0) } else {
             let num: f64 = (1..=nn).map(|k| k as f64 * w[nn - k]).sum(); Some((nn as f64 + 1.0) / 2.0 - num / den) } },
         "cti" => if t < n { return None } else {
             let nn = n as f64; let xs: Vec<f64> = (0..n).map(|i| i as f64).collect();
@@ -344,6 +346,7 @@ fn check_functional(kind: &str, n: usize, h: &[f64]) -> Option<String> {
     for t in 0..h.len() {
         if kind == "cti" && t + 1 < n.max(min_n(kind)) { continue; }   // C06 speaks about full windows only
         if degenerate_step(kind, h, t, n) { continue; }
+        if let Some(e) = exp[t] { if e.is_nan() { continue; } }
         if !oclose(got[t], exp[t]) { return Some(format!("step {t}: got {:?} expected {:?}", got[t], exp[t])); }
     }
     None
@@ -360,6 +363,7 @@ fn check_functional_over(kind: &str, inner: &str, n: usize, h: &[f64]) -> Option
     for (i, &t) in at.iter().enumerate() {
         if kind == "cti" && i + 1 < n.max(min_n(kind)) { continue; }
         if degenerate_step(kind, &ys, i, n) { continue; }
+        if let Some(e) = exp[i] { if e.is_nan() { continue; } }
         if !oclose(got[t], exp[i]) { return Some(format!("step {t} (delivered value {i}): got {:?} expected {:?} over the inner view's outputs", got[t], exp[i])); }
     }
     None
